@@ -9,6 +9,7 @@ import (
 	"runtime/debug"
 	"sort"
 	"strings"
+	"sync"
 
 	kv "github.com/XiXi-2024/xixi-kv"
 	"github.com/XiXi-2024/xixi-kv/index"
@@ -19,26 +20,26 @@ import (
 
 func stack() string { return string(debug.Stack()) }
 
-var scratchBase string
+var (
+	scratchBase string
+	scratchOnce sync.Once
+)
 
 // scratchRoot is the tmpfs directory under which this process creates its data directories.
 func scratchRoot() string {
-	if scratchBase != "" {
-		return scratchBase
-	}
-	base := os.Getenv("VERIF_SCRATCH")
-	if base == "" {
-		base = "/dev/shm"
-	}
-	scratchBase = filepath.Join(base, fmt.Sprintf("vw-%d", os.Getpid()))
-	os.MkdirAll(scratchBase, 0o755)
+	scratchOnce.Do(func() {
+		base := os.Getenv("VERIF_SCRATCH")
+		if base == "" {
+			base = "/dev/shm"
+		}
+		scratchBase = filepath.Join(base, fmt.Sprintf("vw-%d", os.Getpid()))
+		os.MkdirAll(scratchBase, 0o755)
+	})
 	return scratchBase
 }
 
 func cleanupScratch() {
-	if scratchBase != "" {
-		os.RemoveAll(scratchBase)
-	}
+	os.RemoveAll(scratchRoot())
 }
 
 func (c Cfg) options(dir string) kv.Options {
